@@ -55,7 +55,9 @@ TopOf(s)   == s[Len(s)]
 ButLast(s) == SubSeq(s, 1, Len(s) - 1)
 
 \* ---- event log (after-state of the registers that state.py checkpoints) ----
-Log(x, op) == [x EXCEPT !.tr = Append(@, [op |-> op, pos |-> x.pos, ustk |-> x.ustk, rdepth |-> Len(x.rstk), adepth |-> x.adepth])]
+Log(x, op) == [x EXCEPT !.tr = Append(@, [op |-> op, pos |-> x.pos, ustk |-> x.ustk, rdepth |-> Len(x.rstk), adepth |-> x.adepth, own |-> FALSE])]
+\* the checkpoint that the INTERPRETER's PopAll takes for itself; the generated code matches first and pops afterwards, without one
+MarkOwn(x) == [x EXCEPT !.tr[Len(x.tr)].own = TRUE]
 
 RECURSIVE PopN(_, _)
 PopN(d, n) == IF n = 0 THEN d ELSE PopN(D!PopF(d), n - 1)
@@ -173,12 +175,12 @@ EvalStep(x, e) ==
     [] e.k = "peekall" -> LET s == Concat(Rev(S)) IN Term(x, MatchesAt(inp, P, s), Len(s))
     \* PopAll takes its own checkpoint, pops entry by entry, and restores on the first mismatch
     [] e.k = "popall"  -> LET s == Concat(Rev(S))
-                              x1 == Checkpoint(x)
+                              x1 == MarkOwn(Checkpoint(x))
                               \* entries popped before the mismatch is noticed: the matching ones and the one that does not match
                               npop == CHOOSE n \in 1..Len(S) : /\ ~MatchesAt(inp, P, Concat(Rev(SubSeq(S, Len(S) - n + 1, Len(S)))))
                                                                /\ \A j \in 1..(n - 1) : MatchesAt(inp, P, Concat(Rev(SubSeq(S, Len(S) - j + 1, Len(S)))))
-                          IN IF MatchesAt(inp, P, s) THEN Return([Commit([x1 EXCEPT !.ustk = <<>>, !.dstk = D!ClearF(@)]) EXCEPT !.pos = P + Len(s)], "ok")
-                             ELSE Return(Record(Restore([x1 EXCEPT !.dstk = PopN(@, npop)])), "fail")
+                          IN IF MatchesAt(inp, P, s) THEN Return([MarkOwn(Commit([x1 EXCEPT !.ustk = <<>>, !.dstk = D!ClearF(@)])) EXCEPT !.pos = P + Len(s)], "ok")
+                             ELSE Return(Record(MarkOwn(Restore([x1 EXCEPT !.dstk = PopN(@, npop)]))), "fail")
     [] e.k = "peekslice" -> LET s == Concat(SliceOf(S, e.ha, e.a, e.hb, e.b)) IN Term(x, MatchesAt(inp, P, s), Len(s))
 
 \* ---- a sub-parse returned into frame F (x.ret is "ok" or "fail") -------------
